@@ -43,7 +43,7 @@ def summarise(ro, plan, verdicts=(), extra_sums=None) -> dict:
                 te = r.steps.ts_end
                 if len(te):
                     sim_time = max(sim_time, float(te[-1]))
-    probes = {}
+    probes = {k: v for k, v in counts.items() if k.startswith("stop_while_")}
     amb = 0
     judged = 0
     for v in verdicts:
